@@ -102,6 +102,39 @@ def gen_fragment(rng, refs, locus, span, wild):
     return kind, [slot(s1 + off, L1, True), slot(s1, L2, False)]
 
 
+KW_NAMES = ['only_include_refbase', 'min_phred_score', 'skip_first_n_cycles_R1', 'skip_last_n_cycles_R1',
+            'skip_first_n_cycles_R2', 'skip_last_n_cycles_R2', 'dove_R1_distance', 'dove_R2_distance']
+
+
+def gen_kw(rng):
+    """keyword arguments of Molecule.get_consensus that reach read_to_consensus_dict / get_consensus_dictionaries"""
+    kw = {}
+    for name in KW_NAMES:
+        if rng.random() < 0.3:
+            if name == 'only_include_refbase':
+                kw[name] = rng.choice(BASES)
+            elif name == 'min_phred_score':
+                kw[name] = rng.choice([0, 3, 10, 20, 25, 30, 31, 37])
+            elif name.startswith('skip'):
+                kw[name] = rng.choice([0, 1, 2, 3, 5])
+            else:
+                kw[name] = rng.choice([0, 1, 2, 3, -1])
+    if not kw:
+        kw['min_phred_score'] = rng.choice([10, 20, 25, 30])
+    return kw
+
+
+def enc_opts(ds, kw):
+    """model encoding of the option record; no keyword -> the bare dove_safe flag (Model dec_opts)"""
+    if not kw:
+        return int(bool(ds))
+    o = lambda k: [] if kw.get(k) is None else [kw[k]]
+    rb = kw.get('only_include_refbase')
+    return [int(bool(ds)), [] if rb is None else [ord(rb)], o('min_phred_score'), o('skip_first_n_cycles_R1'),
+            o('skip_last_n_cycles_R1'), o('skip_first_n_cycles_R2'), o('skip_last_n_cycles_R2'),
+            kw.get('dove_R1_distance', 0), kw.get('dove_R2_distance', 0)]
+
+
 def gen_case(rng, refs, n, wild, tier):
     locus = rng.randint(5, 150)
     span = rng.choice([4, 6, 10, 16])
@@ -123,7 +156,8 @@ def gen_case(rng, refs, n, wild, tier):
     for o in orders:
         if tuple(o) not in seen:
             seen.add(tuple(o)); uniq.append(o)
-    return {'ds': rng.random() < 0.4, 'frags': frags, 'orders': uniq, 'kinds': kinds}
+    return {'ds': rng.random() < 0.4, 'frags': frags, 'orders': uniq, 'kinds': kinds,
+            'kw': gen_kw(rng) if rng.random() < 0.3 else {}}
 
 
 def gen_history(rng, refs, wild):
@@ -148,9 +182,12 @@ def gen_history(rng, refs, wild):
 
     def query():
         ds, probs = rng.random() < 0.3, rng.random() < 0.25
-        ops.append(['get', ds, probs])
-        if rng.random() < 0.3:
-            ops.append(['get', ds if rng.random() < 0.7 else not ds, False])
+        kw = gen_kw(rng) if rng.random() < 0.4 else {}
+        ops.append(['get', ds, probs, kw])
+        if rng.random() < 0.4:
+            # ask again: same flags without / with other keywords, or the other dove_safe value
+            kw2 = rng.choice([{}, {}, kw, gen_kw(rng), {k: v for k, v in kw.items() if k == 'only_include_refbase'}])
+            ops.append(['get', ds if rng.random() < 0.7 else not ds, False, kw2])
     while i < len(idx):
         r = rng.random()
         if r < 0.4:
@@ -162,7 +199,7 @@ def gen_history(rng, refs, wild):
             ops.append(['mol', idx[i:i + k]]); i += k
         if rng.random() < 0.6:
             query()
-    ops.append(['get', False, False]); ops.append(['get', True, False])
+    ops.append(['get', False, False, {}]); ops.append(['get', True, False, {}])
     return {'frags': frags, 'ops': ops, 'kinds': kinds}
 
 
@@ -177,7 +214,7 @@ def history_model_ops(h, r):
         elif op[0] == 'mol':
             out.append([2, [r['minput'][i] for i in (res if isinstance(res, list) else [])]])
         else:
-            out.append([3, int(op[1]), int(op[2])])
+            out.append([3, enc_opts(op[1], op[3] if len(op) > 3 else None), int(op[2])])
     return out
 
 
@@ -212,9 +249,17 @@ def pick_cases(rng, tier):
 
 
 # ------------------------------------------------------------------------------------------ python oracle
-def spec_votes(ds, frags_minput, head=False):
-    """brute-force transcription of the theorem statement on the pysam-derived read triples:
+def spec_votes(ds, frags_minput, head=False, kw=None):
+    """brute-force transcription of the theorem statement on the pysam-derived read tuples
+    (refpos, base, quality, query position, reference base), for the options of THIS query:
     returns (votes: key -> {base: n}, all_keys) or None when some fragment is outside the precondition"""
+    kw = kw or {}
+    d1, d2 = kw.get('dove_R1_distance', 0), kw.get('dove_R2_distance', 0)
+    minq, refb = kw.get('min_phred_score'), kw.get('only_include_refbase')
+    # (skip_first, skip_last) per mate as get_consensus_dictionaries passes them on: for R2 the code passes
+    # skip_last_n_cycles_R2 as skip_first as well (skip_first_n_cycles_R2 is unused) - the model does the same
+    skips = [(kw.get('skip_first_n_cycles_R1'), kw.get('skip_last_n_cycles_R1')),
+             (kw.get('skip_last_n_cycles_R2'), kw.get('skip_last_n_cycles_R2'))]
     votes, keys = {}, set()
     for slots in frags_minput:
         if len(slots) != 2:
@@ -222,7 +267,7 @@ def spec_votes(ds, frags_minput, head=False):
         r1, r2 = (s if s else None for s in slots)
         for s in (r1, r2):
             if s:
-                for p, b, q in s[5]:
+                for p, b, q, qp, rb in s[5]:
                     keys.add((s[0], p))
                     if chr(b) not in 'ACGTN':
                         return None
@@ -234,9 +279,9 @@ def spec_votes(ds, frags_minput, head=False):
         win = None
         if ds:
             if r1[3] and not r2[3]:
-                win = (r2[1], r1[2] - 1)
+                win = (r2[1] + d2, r1[2] - d1 - 1)
             elif not r1[3] and r2[3]:
-                win = (r1[1], r2[2] - 1)
+                win = (r1[1] + d1, r2[2] - d2 - 1)
             else:
                 continue
         if (r1 and not r1[4]) or (r2 and not r2[4]):
@@ -244,9 +289,20 @@ def spec_votes(ds, frags_minput, head=False):
         d = [{}, {}]
         for i, s in enumerate((r1, r2)):
             if s:
-                for p, b, q in s[5]:
-                    if win is None or win[0] <= p <= win[1]:
-                        d[i][(s[0], p)] = (b, q)
+                rev, qlen = bool(s[3]), s[6]
+                sf, sl = skips[i]
+                for p, b, q, qp, rb in s[5]:
+                    if win is not None and not (win[0] <= p <= win[1]):
+                        continue
+                    if minq is not None and q < minq:
+                        continue
+                    if sl is not None and not ((rev and qp > sl) or (not rev and qp < qlen - sl)):
+                        continue
+                    if sf is not None and not ((not rev and qp > sf) or (rev and qp < qlen - sf)):
+                        continue
+                    if refb is not None and chr(rb).upper() != refb:
+                        continue
+                    d[i][(s[0], p)] = (b, q)
         for k in set(d[0]) | set(d[1]):
             c1, c2 = d[0].get(k), d[1].get(k)
             if c1 and c2:
@@ -264,8 +320,8 @@ def spec_votes(ds, frags_minput, head=False):
     return votes, keys
 
 
-def spec_consensus(ds, frags_minput, head=False):
-    r = spec_votes(ds, frags_minput, head)
+def spec_consensus(ds, frags_minput, head=False, kw=None):
+    r = spec_votes(ds, frags_minput, head, kw)
     if r is None:
         return None
     votes, _ = r
@@ -297,8 +353,10 @@ class Prop(fw.PropBase):
         'modelled not verified: numpy argmax/equality mask on float vectors (exact for counts < 2^53), python dict/set '
         'semantics (model: insertion-ordered association list; iteration order of the key-set union is not modelled, '
         'votes are shown to commute); the sort of the locations only fixes the iteration order of the returned dict',
-        'default keyword arguments of get_consensus only (no only_include_refbase / min_phred_score / skip cycles, '
-        'dove distances 0, allow_N False); membership of fragments in the molecule is taken as given (Molecule._add_fragment)',
+        'keyword options of get_consensus are modelled as the record opts (dove_safe, only_include_refbase, min_phred_score, '
+        'skip_first/last_n_cycles_R1/R2, dove_R1/R2_distance; allow_N False); the code passes skip_last_n_cycles_R2 also as '
+        'skip_first for R2 (skip_first_n_cycles_R2 is unused) - modelled as is; membership of fragments in the molecule is '
+        'taken as given (add_fragment verdict is an input)',
     ]
     ASSUMPTIONS = [
         'every fragment holds a two-slot reads list [R1 or None, R2 or None] (what MoleculeIterator builds); a one-element '
@@ -370,7 +428,7 @@ class Prop(fw.PropBase):
 
     # ---------------------------------------------------------------- K
     def run_impl_cases(self, refs, cases, picks=(), histories=()):
-        return fw.run_impl('impl_c13.py', {'refs': refs, 'cases': [{k: c[k] for k in ('ds', 'frags', 'orders')} for c in cases],
+        return fw.run_impl('impl_c13.py', {'refs': refs, 'cases': [{k: c.get(k) for k in ('ds', 'frags', 'orders', 'kw')} for c in cases],
                                            'picks': list(picks),
                                            'histories': [{k: h[k] for k in ('frags', 'ops')} for h in histories]})
 
@@ -397,14 +455,15 @@ class Prop(fw.PropBase):
             if op[0] != 'get':
                 continue
             held = [r['minput'][i] for i in history_held(h, r, n)]
-            exp = spec_consensus(bool(op[1]), held, head=self.head)
+            kw = op[3] if len(op) > 3 else None
+            exp = spec_consensus(bool(op[1]), held, head=self.head, kw=kw)
             if exp is None:
                 continue
             got = history_answer(op, res)
             if got[0] != [0, exp]:
                 out.append(('history-stale-or-wrong-consensus', n, got[0], exp))
             elif op[2]:
-                votes, _ = spec_votes(bool(op[1]), held, head=self.head)
+                votes, _ = spec_votes(bool(op[1]), held, head=self.head, kw=kw)
                 tab = sorted([k[0], k[1]] + [v.get(ord(b), 0) for b in 'ACGT'] + [0] for k, v in votes.items())
                 if got[1] != [0, tab]:
                     out.append(('history-vote-table', n, got[1], tab))
@@ -440,7 +499,7 @@ class Prop(fw.PropBase):
             nonly += len(keys - set((row[0], row[1]) for row in t))
             mate_ties += sum(1 for fc in r['fragcons'] if isinstance(fc, list) for e in fc if e[2] == 78 and e[3] == 0)
             if contested:
-                nontrivial.add(fw.canon_hash([int(c['ds']), r['minput']]))
+                nontrivial.add(fw.canon_hash([enc_opts(c['ds'], c.get('kw')), r['minput']]))
         self.cov.update({
             'evaluations': evals + len(picks),
             'distinct_nontrivial': len(nontrivial),
@@ -450,6 +509,7 @@ class Prop(fw.PropBase):
                     'different bases received votes; distinct by hash of (dove_safe, per-read pysam triples)',
             'molecules': len(cases), 'fragments_per_molecule': {str(k): v for k, v in sorted(hist_n.items())},
             'fragment_kinds': hist_kind, 'dove_safe_true': sum(1 for c in cases if c['ds']),
+            'molecules_with_keyword_options': sum(1 for c in cases if c.get('kw')),
             'orders_run': sum(len(c['orders']) for c in cases),
             'molecules_with_all_permutations': sum(1 for c in cases if len(c['orders']) >= 6 and len(c['frags']) >= 3),
             'tie_positions_seen': ties, 'positions_without_any_vote_seen': nonly, 'mate_quality_tie_calls_seen': mate_ties,
@@ -466,9 +526,9 @@ class Prop(fw.PropBase):
         jobs, index = [], []
         for ci, (c, r) in enumerate(zip(cases, rc)):
             for oi, o in enumerate(c['orders']):
-                jobs.append([int(c['ds']), [r['minput'][i] for i in o]]); index.append((ci, oi))
+                jobs.append([enc_opts(c['ds'], c.get('kw')), [r['minput'][i] for i in o]]); index.append((ci, oi))
         mout = [sort_model(v) for v in fw.run_model('C13', self.mode, jobs)]
-        ident = [[int(c['ds']), r['minput']] for c, r in zip(cases, rc)]
+        ident = [[enc_opts(c['ds'], c.get('kw')), r['minput']] for c, r in zip(cases, rc)]
         pre = fw.run_model('C13', 1, ident)
         dis = []
         for (ci, oi), m in zip(index, mout):
@@ -482,7 +542,7 @@ class Prop(fw.PropBase):
             for kind, o, g, exp in self.violations_of(c, r):
                 dis.append({'what': 'python brute-force vote disagrees with implementation (%s)' % kind, 'case': ci,
                             'order': o, 'impl': g, 'expected': exp})
-            if spec_consensus(c['ds'], r['minput'], head=self.head) is not None:
+            if spec_consensus(c['ds'], r['minput'], head=self.head, kw=c.get('kw')) is not None:
                 n_py += len(c['orders'])
         spec_jobs, spec_idx = [], []
         cand = [n for n, (ci, oi) in enumerate(index)
@@ -506,7 +566,7 @@ class Prop(fw.PropBase):
         fjobs, fidx = [], []
         for ci, (c, r) in enumerate(zip(cases, rc)):
             for fi, f in enumerate(r['minput']):
-                fjobs.append([int(c['ds']), f]); fidx.append((ci, fi))
+                fjobs.append([enc_opts(c['ds'], c.get('kw')), f]); fidx.append((ci, fi))
         mf = [sort_model(v) for v in fw.run_model('C13', 6, fjobs)]
         for (ci, fi), m in zip(fidx, mf):
             got = code_of(rc[ci]['fragcons'][fi])
@@ -518,7 +578,7 @@ class Prop(fw.PropBase):
         if bad_h:
             raise fw.Broken('correspondence', 'could not run a history: %r' % (bad_h[0],))
         mh = fw.run_model('C13', 8 if self.head else 7, [history_model_ops(h, r) for h, r in zip(hists, rh)])
-        n_get = n_get_after_growth = n_add = n_acc = n_mol = n_raw = n_repeat = 0
+        n_get = n_get_after_growth = n_add = n_acc = n_mol = n_raw = n_repeat = n_kw = n_plain_after_kw = 0
         for hi, (h, r, m) in enumerate(zip(hists, rh, mh)):
             gets = [(n, op, x) for n, (op, x) in enumerate(zip(h['ops'], r['ops'])) if op[0] == 'get']
             seen_get = False
@@ -533,6 +593,9 @@ class Prop(fw.PropBase):
                     n_get += 1
                     n_get_after_growth += seen_get and h['ops'][n - 1][0] != 'get'
                     n_repeat += n > 0 and h['ops'][n - 1][0] == 'get'
+                    has_kw = len(op) > 3 and bool(op[3])
+                    n_kw += has_kw
+                    n_plain_after_kw += (not has_kw) and any(o[0] == 'get' and len(o) > 3 and o[3] for o in h['ops'][:n])
                     seen_get = True
             if len(m) != len(gets):
                 dis.append({'what': 'history: number of answers', 'history': hi, 'model': len(m), 'impl': len(gets)})
@@ -549,7 +612,8 @@ class Prop(fw.PropBase):
                 break
         self.cov['histories'] = {'histories': len(hists), 'queries': n_get, 'queries_after_growth_following_an_earlier_query': n_get_after_growth,
                                  'repeated_queries': n_repeat, 'add_fragment': n_add, 'add_fragment_accepted': n_acc,
-                                 '_add_fragment': n_raw, 'add_molecule': n_mol}
+                                 '_add_fragment': n_raw, 'add_molecule': n_mol, 'queries_with_keyword_options': n_kw,
+                                 'plain_queries_after_a_query_with_keyword_options': n_plain_after_kw}
         self.cov['evaluations'] += n_get
         mp = fw.run_model('C13', 5, [[[] if c is None else c for c in p] for p in picks])
         for p, m, g in zip(picks, mp, res['picks']):
@@ -580,10 +644,10 @@ class Prop(fw.PropBase):
     def violations_of(self, case, r):
         """spec (python transcription of C13_majority / C13_perm / C13_double) on the implementation outputs"""
         out = []
-        exp = spec_consensus(case['ds'], r['minput'], head=self.head)
+        exp = spec_consensus(case['ds'], r['minput'], head=self.head, kw=case.get('kw'))
         if exp is None:
             return out
-        exp_head = spec_consensus(case['ds'], r['minput'], head=True)
+        exp_head = spec_consensus(case['ds'], r['minput'], head=True, kw=case.get('kw'))
         for o, got in zip(case['orders'], r['outs']):
             g = code_of(got)
             if g == [0, exp]:
@@ -635,8 +699,8 @@ class Prop(fw.PropBase):
                 'key': kind if kind.startswith('D16') else 'majority:' + kind,
                 'what': 'Molecule.get_consensus(dove_safe=%s) on %d fragment(s) in insertion order %r returns %r; the strict '
                         'majority of the fragment calls is %r (entries are [contig, refpos, base code])'
-                        % (c2['ds'], len(c2['frags']), o2, g, exp),
-                'input': {'dove_safe': c2['ds'], 'fragments': c2['frags'], 'order': o2, 'refs_seed': 1234},
+                        % ('%s, **%r' % (c2['ds'], c2.get('kw') or {}), len(c2['frags']), o2, g, exp),
+                'input': {'dove_safe': c2['ds'], 'kwargs': c2.get('kw') or {}, 'fragments': c2['frags'], 'order': o2, 'refs_seed': 1234},
                 'impl': g, 'expected': exp})
         # histories: stale / route dependent answers
         hbest = None
@@ -667,7 +731,7 @@ class Prop(fw.PropBase):
 
     def shrink(self, c, o, kind):
         """greedy: drop fragments while the same kind of violation remains"""
-        cur = {'ds': c['ds'], 'frags': [c['frags'][i] for i in o], 'kinds': [c['kinds'][i] for i in o]}
+        cur = {'ds': c['ds'], 'kw': c.get('kw'), 'frags': [c['frags'][i] for i in o], 'kinds': [c['kinds'][i] for i in o]}
         cur['orders'] = [list(range(len(o)))]
         if kind == 'order-or-duplication-dependence':
             cur = dict(c, orders=[c['orders'][0], o])
@@ -677,7 +741,7 @@ class Prop(fw.PropBase):
             cands = []
             if kind != 'order-or-duplication-dependence' and n > 1:
                 for i in range(n):
-                    cands.append({'ds': cur['ds'], 'frags': cur['frags'][:i] + cur['frags'][i + 1:],
+                    cands.append({'ds': cur['ds'], 'kw': cur.get('kw'), 'frags': cur['frags'][:i] + cur['frags'][i + 1:],
                                   'kinds': cur['kinds'][:i] + cur['kinds'][i + 1:], 'orders': [list(range(n - 1))]})
             rs = self.run_impl_cases(self.refs_, [cur] + cands)['cases']
             v0 = [v for v in self.violations_of(cur, rs[0]) if v[0] == kind]
@@ -717,7 +781,7 @@ class Prop(fw.PropBase):
                for op in cur['ops']]
         return {'key': 'history:' + kind,
                 'what': 'operations %r on one Molecule object (add = add_fragment, raw = _add_fragment, mol = add_molecule of a '
-                        'molecule built from those fragments, get = get_consensus(dove_safe, with_probs_and_obs)): the last query '
+                        'molecule built from those fragments, get = get_consensus(dove_safe, with_probs_and_obs, **kwargs)): the last query '
                         'returns %r; the strict majority over the fragments held at that moment is %r' % (ops, got, exp),
                 'input': {'operations': ops, 'fragments': [cur['frags'][i] for i in used], 'refs_seed': 1234},
                 'impl': got, 'expected': exp}
